@@ -632,7 +632,7 @@ type UFDecl struct {
 	Pkg    string
 }
 
-var clauseKeywords = map[string]bool{"guarded": true, "uf": true, "pred": true,"func": true, "lemma": true, "interface": true, "property": true, "mode": true,
+var clauseKeywords = map[string]bool{"ghoststruct": true, "guarded": true, "uf": true, "pred": true,"func": true, "lemma": true, "interface": true, "property": true, "mode": true,
 	"requires": true, "ensures": true, "modifies": true, "inline": true, "trusted": true, "loop": true, "invariant": true,
 	"decreases": true, "maypanic": true, "forall": false, "ghost": true, "method": true, "assume": true, "vars": true, "nosafety": true, "pure": true, "witness": true, "wraps": true,
 	"atomic": true, "rely": true, "guarantee": true, "addassume": true}
@@ -815,6 +815,11 @@ func (db *SpecDB) loadFile(path, pkg string, assumed bool) error {
 			l := &Lemma{Name: rc.rest, Pkg: pkg, File: path}
 			db.Lemmas[l.Name] = l
 			curC, curL, curLoop, curI, curM = nil, l, nil, nil, nil
+		case "ghoststruct":
+			// ghost fields on objects of a named struct type (reached through pointers)
+			it := &IfaceSpec{Name: "struct:" + rc.rest, Pkg: pkg, Methods: map[string]*IfaceMethodSpec{}}
+			db.Ifaces[it.Name] = it
+			curC, curL, curLoop, curI, curM = nil, nil, nil, it, nil
 		case "interface":
 			it := &IfaceSpec{Name: rc.rest, Pkg: pkg, Methods: map[string]*IfaceMethodSpec{}}
 			db.Ifaces[it.Name] = it
